@@ -397,6 +397,21 @@ def run_case(R, level, op, db, args, label="gen"):
                 steps.append(("multiget-twice-same-oid", got, [v3, v3]))
                 w.agent.db[oid] = db[oid]
                 steps.append(("get-after-restore", get(), db[oid]))
+                # the agent CONFIRMS something else than was supplied (a truncated string, a
+                # clamped gauge): set() and multiset() return what the agent confirmed
+                def confirm_other(req, resp):
+                    if req["type"] != 0xA3:
+                        return resp
+                    out = dict(resp)
+                    out["varbinds"] = [(o, v3) for o, _ in resp["varbinds"]]
+                    return out
+
+                w.agent.pdu_hook = confirm_other
+                steps.append(("set-confirmed-differently", to_tuple(drive(c.set(OID(oid), rig.from_tuple(v2)))), v3))
+                ms = drive(c.multiset({OID(oid): rig.from_tuple(v2)}))
+                steps.append(("multiset-confirmed-differently", [to_tuple(x) for x in ms.values()], [v3]))
+                w.agent.pdu_hook = None
+                w.agent.db[oid] = db[oid]
                 # copy / restore: value OBJECTS that came out of responses (single get,
                 # multiget, get-next) are written back as they are; the agent must
                 # receive exactly those typed values
@@ -619,6 +634,8 @@ def run(R):
         run_case(R, level, op, db, args)
     if R.shard == 1 % R.nshards:
         max_datagram(R)
+    if R.shard == 2 % R.nshards:
+        long_lived_client(R)
     if R.shard == 0:
         db = {(1, 3, 6, 1, 2, 1, 1, 1, 0): ("str", b"x"), (1, 3, 6, 1, 2, 1, 1, 2, 0): ("int", 2)}
         last = (1, 3, 6, 1, 2, 1, 1, 2, 0)
@@ -645,6 +662,59 @@ def run(R):
                 run_case(R, level, "bulkget", {**db, **mpd}, {"scalars": [], "repeaters": [(1, 3, 6, 1, 6, 3, 11)], "maxrep": 5}, "corner-reportstats")
             run_case(R, level, "multiget", {**db, **stats}, {"oids": sorted(stats)[:3]}, "corner-usmstats")
             run_case(R, level, "getnext", {**db, **stats}, {"oids": [(1, 3, 6, 1, 6, 3, 15, 1, 1, 3)]}, "corner-usmstats")
+
+
+def long_lived_client(R):
+    """ONE client asks hundreds of different questions and then the early ones again (a
+    poller with a long list of objects): every answer is still the agent's answer to the
+    question asked."""
+    keys = [(1, 3, 6, 1, 4, 1, 4242, 5, i, 0) for i in range(1, 61)]
+    db = {k: ("int", k[-2] * 7) for k in keys}
+    lists = []
+    for i in range(520):
+        a, b, c = keys[i % 60], keys[(i // 60 * 13 + i * 7 + 1) % 60], keys[(i * i + i // 60) % 60]
+        lists.append([a, b, c] if i % 4 else [a, b])
+    lists = [[k] for k in keys[:30]] + lists
+    distinct = len({tuple(x) for x in lists})
+    if distinct < 400:
+        R.inconclusive("long-lived client: only %d distinct questions generated" % distinct)
+        return
+    R.notes["long_lived_distinct_questions"] = distinct
+    lists = lists + lists[:120]
+    for level in ("v1", "v2c", "v3-md5-priv"):
+        w = World(level, db)
+        w.prime()
+        c = w.client
+        for j, oids in enumerate(lists):
+            w.seam.reset(budget=6)
+            w.agent.requests.clear()
+            case = _case(level, "long-lived", {}, args={"request_number": j, "oids": oids})
+            if j % 4 == 3:
+                res = rig.outcome(lambda: drive(c.multigetnext([OID(o) for o in oids])))
+                want = [(successor(sorted(db), o), db.get(successor(sorted(db), o))) for o in oids]
+                got = [(oid_t(vb.oid), to_tuple(vb.value)) for vb in res[1]] if res[0] == "ok" else None
+                if any(s0 is None for s0, _ in want):
+                    continue
+            elif len(oids) == 1:
+                res = rig.outcome(lambda: drive(c.get(OID(oids[0]))))
+                want, got = db[oids[0]], (to_tuple(res[1]) if res[0] == "ok" else None)
+            else:
+                res = rig.outcome(lambda: drive(c.multiget([OID(o) for o in oids])))
+                want, got = [db[o] for o in oids], ([to_tuple(v) for v in res[1]] if res[0] == "ok" else None)
+            R.evaluations += 1
+            if res[0] != "ok":
+                R.violation(case, "request number %d of one client (%r) raised %r" % (j, oids[:3], res[1]), None)
+                break
+            if got != want:
+                R.violation(case, "request number %d of one client: asked for %r, got %r, the agent holds %r" % (j, oids[:3], str(got)[:120], str(want)[:120]), None)
+                break
+            sent = [tuple(o) for o, _ in last_request(w)["varbinds"]]
+            if sent != oids:
+                R.violation(case, "request number %d of one client names %r on the wire, the caller asked for %r" % (j, sent[:4], oids[:4]), None)
+                break
+        else:
+            R.mon["long_lived_clients_ok"] += 1
+        R.mon["long_lived_requests"] += len(lists)
 
 
 def max_datagram(R):
@@ -677,6 +747,10 @@ def max_datagram(R):
 
 def replay(R, v):
     from .walkcommon import dec_db
+
+    if v["case"].get("op") == "long-lived":
+        long_lived_client(R)
+        return
 
     c = v["case"]
     args = c["args"]
